@@ -183,6 +183,14 @@ func (idx *FlatIndex) Add(vector VectorNode) error {
 		return err
 	}
 
+	// Re-adding an ID whose removal is still pending: apply the pending removals first,
+	// otherwise the tombstone would hide the new vector (and the next Flush would drop it)
+	if idx.deletedNodes.Contains(vector.ID()) {
+		if err := idx.flushLocked(); err != nil {
+			return err
+		}
+	}
+
 	// Simply append the preprocessed vector to our flat storage
 	idx.vectors = append(idx.vectors, vector)
 	return nil
@@ -267,6 +275,11 @@ func (idx *FlatIndex) Flush() error {
 	idx.mu.Lock()
 	defer idx.mu.Unlock()
 
+	return idx.flushLocked()
+}
+
+// flushLocked is Flush for callers that already hold the write lock.
+func (idx *FlatIndex) flushLocked() error {
 	// Quick exit if nothing to flush
 	deletedCount := int(idx.deletedNodes.GetCardinality())
 	if deletedCount == 0 {
